@@ -312,6 +312,8 @@ var ops = []op{
 		e.get("Jr").With(zap.Reflect("ctx", pair{5, "j"})).Info("m-jre", zap.Reflect("r", pair{6, "<j>"}), zap.Array("arr", nestArr{1}))
 	}},
 	{"cc", "console: logger with namespaced context", func(e *env) { e.get("Cc").Info("m-cc", zap.Int("k", 5)) }},
+	{"ccnof", "console: entry without fields through the logger with namespaced context (the stored context is used as it is)", func(e *env) { e.get("Cc").Info("m-ccnof") }},
+	{"jcnof", "JSON: entry without fields through the logger with namespaced context", func(e *env) { e.get("Jc").Info("m-jcnof") }},
 	{"cnof", "console: no fields at all (empty context)", func(e *env) { e.get("C").Named("nm").Info("m-cnof") }},
 	{"cstk", "console: caller + stack", func(e *env) { deep(2, func() { e.get("Cs").Error("m-cstk", zap.Error(e1)) }) }},
 	{"cerr", "console: error group and failing marshaler", func(e *env) {
